@@ -336,6 +336,9 @@ def sequence (cfg : Cfg) (ps : PS) (it : It) : Option (Re × PS × It) :=
             if st.removed && body.isEmpty then
               -- `[]` → impossible class, `[^]` → match anything (1152-1162)
               .cls (!neg) [fullRange cfg.isBytes]
+            else if st.removed && !neg && body == [.chr '^' false] then
+              -- the comparison is on the joined TEXT: a lone literal `^` left over also reads `[^]`
+              .cls false [fullRange cfg.isBytes]
             else
               let atoms := tokAtoms cfg.isBytes body
               .cls neg (groupAtoms (atoms.length + 1) atoms)
